@@ -571,7 +571,9 @@ class VersionConverter(object):
         if not filename.endswith(tuple(ext)):
             filename = "%s.xml" % filename
 
-        if data and "<odML " in data:
+        # Only documents with an odML root element are written; files of other
+        # vocabularies may mention odML elements in comments or processing instructions.
+        if data and ET.fromstring(data).tag == "odML":
             with open(filename, "w") as file:
                 file.write("%s\n" % XML_HEADER)
                 file.write(data)
